@@ -3,5 +3,6 @@ CONSTANTS
   Keys = {"R-C1", "G-C1", "G-C2"}
   MaxEnv = 6
   AsCodedScan = FALSE
-INVARIANTS TypeOK
+  AsCodedSubscribe = FALSE
+INVARIANTS TypeOK NeverStaleUnnoticed
 PROPERTIES Quiesce StopStopsAll
